@@ -134,3 +134,8 @@ Example C01_L1_nonvacuous :
   wire_decode (fun x => Some x) true false (builtin_table true) [[238; 49; 1]; [238]; [238; 238]; [71; 0]] [1%nat] 2 = Some [126; 1; 238; 27; 0] /\
   wire_frames [5%nat] 4 (wire_encode id1 false false [] [[77]; [97; 110]]) = [[84; 87; 70; 117]].
 Proof. vm_compute. auto. Qed.
+
+(* a base64 stream whose length (CR/LF not counted) is not a multiple of 4 is rejected, not guessed *)
+Theorem C01_b64_rejects_bad_length : forall s, (length (b64_strip s) mod 4 <> 0)%nat -> b64_decode s = None.
+Proof. exact decode_rejects_bad_length. Qed.
+Print Assumptions C01_b64_rejects_bad_length.
